@@ -67,6 +67,21 @@ func opOperands(r *rng.R) (op string, c dec.Ctx, x, y dec.D, aux int64) {
 		}
 		x = smallOperand(r, c)
 		y = powExponent(r)
+		if r.Chance(1, 8) {
+			// x = t^2 (or t^4) with t ending in 5 at digit Precision+1, y = 0.5
+			// (0.25, 1.5): the exact power is a tie of the caller's rounding
+			tt := new(big.Int).Add(new(big.Int).Mul(big.NewInt(r.Range(1, 99)), big.NewInt(10)), big.NewInt(5))
+			if c.P > 2 {
+				tt = new(big.Int).Add(new(big.Int).Mul(gen.Coeff(r, c.P), big.NewInt(10)), big.NewInt(5))
+			}
+			k := []int64{2, 4}[r.Intn(2)]
+			x = dec.D{Form: dec.Finite, C: new(big.Int).Exp(tt, big.NewInt(k), nil), E: -k * r.Range(0, 3)}
+			y = dec.D{Form: dec.Finite, C: big.NewInt(map[int64]int64{2: 5, 4: 25}[k]), E: map[int64]int64{2: -1, 4: -2}[k]}
+			if dec.NumDigits(x.C) > 2*c.P+8 {
+				x = smallOperand(r, c)
+				y = powExponent(r)
+			}
+		}
 	case "quantize":
 		x, aux = quantizeOperand(r, c)
 	case "rtie", "rtiv", "ceil", "floor":
